@@ -1,10 +1,16 @@
 use crate::util::*;
 pub mod indent;
 pub mod matching;
+pub mod navigation;
 pub mod notation;
+pub mod worker;
+pub mod lsp;
 pub mod print;
 pub mod rules;
 pub mod scan;
+pub mod select;
+pub mod topo;
+pub mod c13proj;
 pub mod splice;
 pub mod suppress;
 pub mod tables;
@@ -41,6 +47,15 @@ pub fn run(unit: &str, ctx: &Ctx, rng: &mut Rng, o: &mut Out) -> bool {
     "c06_cli" => splice::c06_cli(ctx, rng, o),
     "scan" => scan::scan_unit(ctx, rng, o),
     "scan_cli" => scan::cli_unit(ctx, rng, o),
+    "select_unit" => select::unit(ctx, rng, o),
+    "select_cli" => select::cli(ctx, rng, o),
+    "topo" => topo::unit(ctx, rng, o),
+    "c13_process" => c13proj::process(ctx, rng, o),
+    "navigation" => navigation::navigation(ctx, rng, o),
+    "read_file" => worker::read_file(ctx, rng, o),
+    "worker_trees" => worker::worker_trees(ctx, rng, o),
+    "lsp_history" => lsp::lsp_history(ctx, rng, o),
+    "lsp_unawaited" => lsp::lsp_unawaited(ctx, rng, o),
     "cut" => matching::cut_unit(ctx, rng, o),
     "near_miss" => matching::near_miss_unit(ctx, rng, o),
     "rules_shared" => rules::rules_unit(ctx, rng, o, true),
@@ -65,6 +80,21 @@ pub fn exec_op(op: &str, a: &serde_json::Value) -> serde_json::Value {
     return v;
   }
   if let Some(v) = splice::exec(op, a) {
+    return v;
+  }
+  if let Some(v) = select::exec(op, a) {
+    return v;
+  }
+  if let Some(v) = topo::exec(op, a) {
+    return v;
+  }
+  if let Some(v) = navigation::exec(op, a) {
+    return v;
+  }
+  if let Some(v) = worker::exec(op, a) {
+    return v;
+  }
+  if let Some(v) = lsp::exec(op, a) {
     return v;
   }
   serde_json::json!({"harness_error": format!("op {op} is not replayable stand-alone")})
